@@ -31,7 +31,7 @@ package main
 //	              Exchange.IsCacheable (1b3 only: IsCacheable panics for 1b1/1b2 by
 //	              design): status 100..599 x every subset of the 7 directives x Expires
 //	              present/absent x 3 spellings x single-/multi-valued x both orders x
-//	              15 look-alike extension tokens (3 with a quoted-string argument).  No signing.
+//	              19 look-alike extension tokens (7 with a quoted-string argument, 4 of those with commas inside).  No signing.
 //	C09/twosig    Signature headers with two signatures: "valid" iff some signature is
 //	              valid and passes the policy (spec: run the algorithm for each
 //	              signature, stop at the first that returns valid).
@@ -227,7 +227,7 @@ var c09Tokens = []string{"no-store", "private", "max-age=1", "s-maxage=1", "publ
 
 // look-alike extension tokens for C09/storable (replace the 7th token)
 // (the last three carry a quoted-string argument without a comma inside: RFC 7234 allows both argument forms)
-var c09ExtTokens = []string{"x-ext=1", "ext", "xno-store", "no-storex", "privately", "xprivate", "max-age-x=1", "xmax-age=1", "s-maxagex=1", "xs-maxage=1", "publicx", "xpublic", `x-ext="v"`, `x-ext=""`, `x-ext="no-store"`}
+var c09ExtTokens = []string{"x-ext=1", "ext", "xno-store", "no-storex", "privately", "xprivate", "max-age-x=1", "xmax-age=1", "s-maxagex=1", "xs-maxage=1", "publicx", "xpublic", `x-ext="v"`, `x-ext=""`, `x-ext="no-store"`, `x-ext="a, no-store, b"`, `x-ext="a,private"`, `x-ext="a, max-age=1"`, `x-ext="q\", no-store, \"r"`}
 
 var c09Seps = []string{", ", ",", " , "}
 
@@ -324,7 +324,9 @@ func c09CCAlts(level int) [][]string {
 	}
 	// an extension directive with a quoted-string argument directly followed by / following a decisive directive
 	for _, v := range [][]string{{`x-ext="v",no-store`}, {`no-store,x-ext="v"`}, {`x-ext="v",private`}, {`x-ext="v",max-age=1`}, {`x-ext="v", s-maxage=1`},
-		{`public,x-ext="v",no-cache`}, {`x-ext="v"`, `no-store`}, {`x-ext="v"`, `public`}, {`x-ext="no-store"`}, {`x-ext="v",public`}} {
+		{`public,x-ext="v",no-cache`}, {`x-ext="v"`, `no-store`}, {`x-ext="v"`, `public`}, {`x-ext="no-store"`}, {`x-ext="v",public`},
+		// quoted-string arguments that contain commas: the text between the quotes is not a directive
+		{`x-ext="a, no-store, b"`}, {`x-ext="a,private"`}, {`x-ext="a, public"`}, {`max-age=1, x-ext="a, no-store"`}, {`x-ext="q\", no-store, \"r"`}, {`x-ext="a, no-store, b", private`}} {
 		add(v)
 	}
 	return out
@@ -1055,7 +1057,7 @@ func init() {
 		Level: "model_checking",
 		Rule: "choice-tree enumeration over (version x form x request URL x time offsets x method x request header x response header x Cache-Control x Expires x status x Content-Type x integrity x validity URL): " +
 			"C09/single sweeps every dimension completely with the others default, C09/pairs every pair (quick: boundary Cache-Control/header alphabets, thorough: all 127 directive subsets and all header spellings), " +
-			"C09/storable the full product status 100..599 x 128 directive subsets (x 15 look-alike extension tokens, 3 of them with a quoted-string argument) x Expires x 3 spellings x order x single/multi-valued against IsCacheable, C09/twosig all pairs of 8 signature variants x 4 exchange-level variants. " +
+			"C09/storable the full product status 100..599 x 128 directive subsets (x 19 look-alike extension tokens, 7 of them with a quoted-string argument, 4 of those with commas inside the quotes) x Expires x 3 spellings x order x single/multi-valued against IsCacheable, C09/twosig all pairs of 8 signature variants x 4 exchange-level variants. " +
 			"Every exchange is really signed (ECDSA P-256) after its headers are final, so signature and payload integrity hold by construction. A case is non-trivial when it deviates from the default (all-conditions-met) exchange in at least one dimension; distinct by (version, form, deviations). For C09/storable every (directives, status, Expires) triple is distinct by construction.",
 		Assumptions: []string{
 			"refpolicy (written from the drafts and RFC 7234 section 3) is correct; 'status code understood by the cache' = net/http.StatusText knows it (same reading as the code)",
